@@ -906,7 +906,8 @@ theorem gates_present_in_tree :
     SdnsVerif.Gen.C01.shape_soa_beside_ns_goes_through_allowlist = true ∧
     SdnsVerif.Gen.C01.shape_zone_security_judged_for_serving_zone_answer = true ∧
     SdnsVerif.Gen.C01.shape_zone_security_judged_for_serving_zone_authority = true ∧
-    SdnsVerif.Gen.C01.shape_zone_security_judged_for_serving_zone_validateDelegation = true := by
+    SdnsVerif.Gen.C01.shape_zone_security_judged_for_serving_zone_validateDelegation = true ∧
+    SdnsVerif.Gen.C01.shape_private_lookup_keyed_on_request_cd = true := by
   decide
 
 /-! ## a zone is treated as unsigned only on proof -/
